@@ -421,7 +421,7 @@ pub fn expected_len(prog: &NetProgram, m: usize, site: usize, ai: usize) -> Opti
         spec.beats.get(site)?.acts.get(ai)?
     };
     match act {
-        Act::Send { body, .. } => Some(64 + body_decl_len(*body)),
+        Act::Send { body, .. } => Some(64 + crate::bodies::declared_len_uid(*body, uid_of(m, site, ai, 0))),
         _ => None,
     }
 }
@@ -730,4 +730,625 @@ pub fn check_c14(prog: &NetProgram, res: &NetResult, info: &mut RunInfo) {
     }
     info.events += res.ok.map_or(0, |o| o.1 as u64);
     info.nontrivial = deep_stack && any_consume && any_nonmsg;
+}
+
+// ---------------------------------------------------------------- C03 (net level)
+
+#[derive(Clone, Debug, PartialEq, Eq)]
+enum NEv {
+    Beat { m: usize, i: usize },
+    Data { m: usize, uid: u32 },
+    Exit { from: G, uid: u32 },
+}
+
+struct NPend {
+    time: u64,
+    seq: u64,
+    zero: bool,
+    ev: NEv,
+}
+
+/// Reference DES of the net layer for channel-free, fault-free, task-free models: every handler buffers the events
+/// it emits in program order, the buffer is flushed after the handler, and the future event set follows the tie rule
+/// of the property (events scheduled for the current instant first, FIFO; otherwise by timestamp, then scheduling order).
+pub fn check_c03_net(prog: &NetProgram, res: &NetResult, info: &mut RunInfo) {
+    let prog = &normalise(prog);
+    if res.escaped_panic.is_some() || res.ok.is_none() {
+        return;
+    }
+    let graph = build_graph(prog);
+    let mut pend: Vec<NPend> = Vec::new();
+    let mut seq = 0u64;
+    let mut instant = 0u64;
+    let mut sched = |pend: &mut Vec<NPend>, instant: u64, time: u64, ev: NEv| {
+        pend.push(NPend { time, seq, zero: time == instant, ev });
+        seq += 1;
+    };
+    // start-up: modules in creation order (all top level in these scenarios), stage 0 schedules the beats
+    for &m in &res.build.order {
+        let spec = &prog.modules[m];
+        if spec.chained {
+            if let Some(b) = spec.beats.first() {
+                sched(&mut pend, instant, b.at_ns, NEv::Beat { m, i: 0 });
+            }
+        } else {
+            for (i, b) in spec.beats.iter().enumerate() {
+                sched(&mut pend, instant, b.at_ns, NEv::Beat { m, i });
+            }
+        }
+    }
+    let mut expect: Vec<(usize, u32, u64)> = Vec::new(); // (module, beat index | uid, time); beats are tagged with bit 31
+    let mut guard = 0;
+    let mut biggest_tie = 0usize;
+    while !pend.is_empty() && guard < 100_000 {
+        guard += 1;
+        let idx = if let Some((i, _)) = pend.iter().enumerate().filter(|(_, p)| p.zero).min_by_key(|(_, p)| p.seq) {
+            i
+        } else {
+            pend.iter().enumerate().min_by_key(|(_, p)| (p.time, p.seq)).map(|(i, _)| i).unwrap()
+        };
+        let tie = pend.iter().filter(|p| p.time == pend[idx].time).count();
+        biggest_tie = biggest_tie.max(tie);
+        let p = pend.remove(idx);
+        instant = p.time;
+        let now = p.time;
+        match p.ev {
+            NEv::Exit { from, uid } => {
+                let hops = graph.walk(from);
+                let dest = hops.last().map_or(from, |h| h.0);
+                sched(&mut pend, instant, now, NEv::Data { m: dest.0, uid });
+            }
+            NEv::Data { m, uid } => expect.push((m, uid, now)),
+            NEv::Beat { m, i } => {
+                expect.push((m, 0x8000_0000 | i as u32, now));
+                let spec = &prog.modules[m];
+                let mut buffer: Vec<(u64, NEv)> = Vec::new();
+                if spec.chained && i + 1 < spec.beats.len() {
+                    let d = spec.beats[i + 1].at_ns.saturating_sub(spec.beats[i].at_ns);
+                    buffer.push((now + d, NEv::Beat { m, i: i + 1 }));
+                }
+                let nflat = flat_gates(spec).len();
+                for (ai, a) in spec.beats[i].acts.iter().enumerate() {
+                    match a {
+                        Act::Send { gate, delay_ns, .. } => {
+                            if nflat == 0 {
+                                continue;
+                            }
+                            let from: G = (m, *gate as usize % nflat);
+                            if graph.degree(from) == 2 {
+                                continue;
+                            }
+                            let uid = uid_of(m, i, ai, 0);
+                            if *delay_ns == 0 {
+                                let hops = graph.walk(from);
+                                let dest = hops.last().map_or(from, |h| h.0);
+                                buffer.push((now, NEv::Data { m: dest.0, uid }));
+                            } else {
+                                buffer.push((now + delay_ns, NEv::Exit { from, uid }));
+                            }
+                        }
+                        Act::SelfMsg { delay_ns } => {
+                            buffer.push((now + delay_ns, NEv::Data { m, uid: uid_of(m, i, ai, 0) }));
+                        }
+                        _ => {}
+                    }
+                }
+                for (t, ev) in buffer {
+                    sched(&mut pend, instant, t, ev);
+                }
+            }
+        }
+    }
+    let got: Vec<(usize, u32, u64)> = res
+        .trace
+        .iter()
+        .filter_map(|r| match &r.ev {
+            Ev::Beat { i, .. } => Some((r.m as usize, 0x8000_0000 | u32::from(*i), r.t)),
+            Ev::Recv { uid, .. } => Some((r.m as usize, *uid, r.t)),
+            _ => None,
+        })
+        .collect();
+    // which events run at all, and when, is not this property's statement
+    let mut a = expect.clone();
+    let mut b = got.clone();
+    a.sort_unstable();
+    b.sort_unstable();
+    if a != b {
+        return;
+    }
+    if let Some(pos) = got.iter().zip(expect.iter()).position(|(g, e)| g != e) {
+        info.violate(Violation::new("C03", "tie-order-net", format!(
+            "delivery #{pos}: module {} handled {:#x} at {} ns where the scheduling history ranks {:#x} (module {}) first",
+            got[pos].0, got[pos].1, got[pos].2, expect[pos].1, expect[pos].0)));
+        return;
+    }
+    info.probe_n("net_tie_group_max", biggest_tie as u64);
+    info.events += res.ok.map_or(0, |o| o.1 as u64);
+    info.nontrivial = biggest_tie >= 2;
+}
+
+// ---------------------------------------------------------------- C16
+
+pub fn check_c16(prog: &NetProgram, res: &NetResult, info: &mut RunInfo) {
+    let prog = &normalise(prog);
+    if let Some(e) = &res.escaped_panic {
+        info.violate(Violation::new("C16", "panic", format!("building or running the model panicked: {e}")));
+        return;
+    }
+    for (k, v) in &res.ledger.ops {
+        info.probe_n(k, *v);
+    }
+    if let Some((rule, msg)) = res.ledger.errors.first() {
+        info.violate(Violation::new("C16", rule, msg.clone()));
+        return;
+    }
+    // every stored value dropped exactly once (only tokens that live in message bodies are this property's business)
+    let is_body = |uid: u32| uid < crate::bodies::TOKEN_TASK;
+    if let Some((tid, uid)) = res.ledger.double.iter().find(|(_, u)| is_body(*u)) {
+        info.violate(Violation::new("C16", "body-double-drop", format!("a value stored in message {uid:#x} was dropped more than once (token {tid})")));
+        return;
+    }
+    if let Some((tid, uid)) = res.ledger.leaked.iter().find(|(_, u)| is_body(*u)) {
+        let queued = 0;
+        info.violate(Violation::new("C16", "body-leak", format!(
+            "a value stored in message {uid:#x} was never dropped although the simulation is gone (token {tid})")).fact("queued", queued));
+        return;
+    }
+    // the size channels charge for is header + declared body length
+    let graph = build_graph(prog);
+    let mut arrivals: BTreeMap<u32, u64> = BTreeMap::new();
+    for r in &res.trace {
+        if let Ev::Recv { uid, .. } = &r.ev {
+            arrivals.entry(*uid).or_insert(r.t);
+        }
+    }
+    let mut lost = 0u64;
+    for r in &res.trace {
+        if let Ev::Offer { uid, gate, busy, has_chan, delay_ns: 0, len, .. } = &r.ev {
+            let (sm, _, site, ai) = uid_parts(*uid);
+            let Some(exp_len) = expected_len_uid(prog, sm, site, ai, *uid) else { continue };
+            if *len as usize != exp_len {
+                info.violate(Violation::new("C16", "length", format!(
+                    "message {uid:#x} reports length {len} when offered, 64-byte header + declared body length = {exp_len}")));
+                return;
+            }
+            let hops = graph.walk((r.m as usize, *gate as usize));
+            if hops.len() == 1 && *has_chan && !*busy {
+                if let Some(ch) = &hops[0].1 {
+                    if ch.jitter_ns == 0 {
+                        if let Some(t) = arrivals.get(uid) {
+                            let exp = r.t + busy_ns(exp_len, ch.bitrate) + ch.latency_ns;
+                            info.probe("length_vs_channel_time_checked");
+                            if t.abs_diff(exp) > 2 {
+                                info.violate(Violation::new("C16", "charged-size", format!(
+                                    "message {uid:#x} of length {exp_len} arrived after {} ns over an idle channel; (64 + declared)*8/bitrate + latency = {} ns", t - r.t, exp - r.t)));
+                                return;
+                            }
+                        }
+                    }
+                }
+            }
+            if !arrivals.contains_key(uid) {
+                lost += 1;
+            }
+        }
+    }
+    info.probe_n("message_lost_to_fault", lost);
+    let o = &res.ledger.ops;
+    info.nontrivial = (o.get("try_clone").copied().unwrap_or(0) + o.get("clone").copied().unwrap_or(0)) > 0 && o.get("failed_cast").copied().unwrap_or(0) > 0 && lost > 0;
+    info.events += res.ok.map_or(0, |o| o.1 as u64);
+}
+
+pub fn expected_len_uid(prog: &NetProgram, m: usize, site: usize, ai: usize, uid: u32) -> Option<usize> {
+    let spec = prog.modules.get(m)?;
+    let act = if site >= PE_SITE_BASE {
+        return Some(64);
+    } else if site >= RX_SITE_BASE {
+        &spec.rx.get(site - RX_SITE_BASE)?.act
+    } else {
+        spec.beats.get(site)?.acts.get(ai)?
+    };
+    match act {
+        Act::Send { body, .. } => Some(64 + crate::bodies::declared_len_uid(*body, uid)),
+        _ => None,
+    }
+}
+
+// ---------------------------------------------------------------- C20
+
+pub fn check_c20(_prog: &NetProgram, res: &NetResult, stop: &str, info: &mut RunInfo) -> bool {
+    if let Some(e) = &res.escaped_panic {
+        info.violate(Violation::new("C20", "panic", format!("building, running or dropping the model panicked ({stop}): {e}")));
+        return false;
+    }
+    let kind = |uid: u32| match uid {
+        crate::bodies::TOKEN_MODULE => "module state".to_string(),
+        crate::bodies::TOKEN_PE => "processing element".to_string(),
+        crate::bodies::TOKEN_TASK => "state captured by a task".to_string(),
+        u => format!("body of message {u:#x}"),
+    };
+    if let Some((tid, uid)) = res.ledger.double.first() {
+        info.violate(Violation::new("C20", "double-drop", format!("{} was dropped more than once (token {tid}; {stop})", kind(*uid))));
+        return false;
+    }
+    if let Some((tid, uid)) = res.ledger.leaked.first() {
+        let what = match *uid {
+            crate::bodies::TOKEN_MODULE => 1,
+            crate::bodies::TOKEN_PE => 2,
+            crate::bodies::TOKEN_TASK => 3,
+            _ => 0,
+        };
+        info.violate(Violation::new("C20", "leak", format!(
+            "{} is still alive after the simulation was dropped (token {tid}; {stop}; {} tokens leaked in total)", kind(*uid), res.ledger.leaked.len()))
+            .fact("what", what));
+        return false;
+    }
+    true
+}
+
+// ---------------------------------------------------------------- C13
+
+pub fn check_c13(prog: &NetProgram, faulty: &NetResult, twin: &NetResult, info: &mut RunInfo) {
+    let prog = &normalise(prog);
+    if let Some(e) = &faulty.escaped_panic {
+        info.violate(Violation::new("C13", "simulator-aborted", format!("a module panic escaped the simulator: {e}")));
+        return;
+    }
+    if twin.escaped_panic.is_some() || !faulty.started {
+        return;
+    }
+    let nmod = prog.modules.len();
+    // victims: modules with a PanicNow record
+    let mut panic_seq: Vec<Option<u32>> = vec![None; nmod];
+    for r in &faulty.trace {
+        if matches!(r.ev, Ev::PanicNow) && panic_seq[r.m as usize].is_none() {
+            panic_seq[r.m as usize] = Some(r.seq);
+        }
+    }
+    let victims: Vec<usize> = (0..nmod).filter(|m| panic_seq[*m].is_some()).collect();
+    info.probe_n("module_panicked", victims.len() as u64);
+    // what happens to a victim's own delayed sends that are still waiting to leave is not defined by
+    // "merely fallen silent" (des drops them at their exit time): such programs are not judged
+    let delayed_from_victim = victims.iter().any(|v| {
+        let sp = &prog.modules[*v];
+        sp.beats.iter().flat_map(|b| b.acts.iter()).chain(sp.rx.iter().map(|r| &r.act)).any(|a| matches!(a, Act::Send { delay_ns, .. } if *delay_ns > 0))
+    });
+    if delayed_from_victim {
+        return;
+    }
+    // healthy modules: exactly what they would have seen had the faulty modules merely fallen silent
+    let sub = |res: &NetResult, m: usize| -> Vec<(u64, Ev)> { res.trace.iter().filter(|r| r.m as usize == m).map(|r| (r.t, r.ev.clone())).collect() };
+    let mut healthy_busy = false;
+    for m in 0..nmod {
+        if panic_seq[m].is_some() {
+            continue;
+        }
+        let a = sub(faulty, m);
+        let b = sub(twin, m);
+        if a != b {
+            let pos = a.iter().zip(b.iter()).position(|(x, y)| x != y).unwrap_or(a.len().min(b.len()));
+            info.violate(Violation::new("C13", "healthy-module-disturbed", format!(
+                "module {} ({}) differs from the run in which the faulty modules merely fall silent, at its record #{pos}: {:?} vs {:?}",
+                m, module_path(prog, m), a.get(pos), b.get(pos))));
+            return;
+        }
+        if let Some(first_panic) = victims.iter().filter_map(|v| panic_seq[*v]).min() {
+            if faulty.trace.iter().any(|r| r.m as usize == m && r.seq > first_panic && matches!(r.ev, Ev::Recv { .. } | Ev::Beat { .. } | Ev::Task { .. })) {
+                healthy_busy = true;
+            }
+        }
+    }
+    // victims: deactivated, no further messages or wake-ups
+    let mut pending_after = false;
+    for &v in &victims {
+        let ps = panic_seq[v].unwrap();
+        let at_end = faulty.trace.iter().any(|r| r.seq == ps.saturating_sub(1) && r.m as usize == v && matches!(r.ev, Ev::End { .. }));
+        if let Some(r) = faulty.trace.iter().find(|r| r.m as usize == v && r.seq > ps && matches!(r.ev, Ev::Recv { .. } | Ev::Beat { .. })) {
+            info.violate(Violation::new("C13", "victim-still-running", format!(
+                "module {} handled {:?} at {} ns after it had panicked", module_path(prog, v), r.ev, r.t)));
+            return;
+        }
+        if !at_end && faulty.active_at_end.get(v).copied().unwrap_or(false) && faulty.ok.is_some() {
+            info.violate(Violation::new("C13", "victim-active", format!("module {} still reports is_active() after its panic", module_path(prog, v))));
+            return;
+        }
+        // did it have work pending? (the twin does not tell; look at offers addressed to it after the panic)
+        let _ = &mut pending_after;
+    }
+    // error report: exactly the non-catching victims
+    let mut expect_err: Vec<String> = victims.iter().filter(|v| !prog.modules[**v].catching).map(|v| module_path(prog, *v)).collect();
+    expect_err.sort();
+    let mut got_err: Vec<String> = faulty.errors.iter().filter(|(k, _)| k == "panic").map(|(_, p)| p.clone()).collect();
+    got_err.sort();
+    got_err.dedup();
+    if faulty.ok.is_some() && !expect_err.is_empty() {
+        info.violate(Violation::new("C13", "error-missing", format!("run() returned Ok although modules {expect_err:?} panicked without a catching stereotype")));
+        return;
+    }
+    if faulty.ok.is_none() && got_err != expect_err {
+        info.violate(Violation::new("C13", "error-set", format!("run() reports panics of {got_err:?}, the modules that panicked (non-catching) are {expect_err:?}; all errors: {:?}", faulty.errors)));
+        return;
+    }
+    info.events += faulty.ok.map_or(0, |o| o.1 as u64);
+    info.nontrivial = !victims.is_empty() && healthy_busy;
+}
+
+// ---------------------------------------------------------------- C09
+
+#[derive(Debug, Clone)]
+struct Down {
+    /// time of the requesting event
+    from_t: u64,
+    /// seq of the Reset record (end of the requesting event)
+    reset_seq: u32,
+    /// restart instant, None = never
+    until_t: Option<u64>,
+    /// seq of the first Start record of the new incarnation
+    start_seq: Option<u32>,
+}
+
+#[allow(clippy::too_many_lines)]
+pub fn check_c09(prog: &NetProgram, res: &NetResult, info: &mut RunInfo) {
+    let prog = &normalise(prog);
+    if let Some(e) = &res.escaped_panic {
+        info.violate(Violation::new("C09", "panic", format!("building or running the model panicked: {e}")));
+        return;
+    }
+    if res.ok.is_none() {
+        if res.started && !res.errors.iter().all(|(k, _)| k == "join-not-finished") {
+            info.violate(Violation::new("C09", "run-error", format!("run without panics returned errors {:?}", res.errors)));
+        }
+        if res.errors.iter().any(|(k, _)| k != "join-not-finished") {
+            return;
+        }
+    }
+    let nmod = prog.modules.len();
+    let tr = &res.trace;
+    // downtime intervals per module, from the requests in the trace
+    let mut downs: Vec<Vec<Down>> = vec![Vec::new(); nmod];
+    for m in 0..nmod {
+        let recs: Vec<&Rec> = tr.iter().filter(|r| r.m as usize == m).collect();
+        let mut i = 0;
+        while i < recs.len() {
+            if let Ev::ShutdownReq { .. } = recs[i].ev {
+                // all requests of this event: up to the Reset record; the last one wins
+                let t = recs[i].t;
+                let mut last_restart = -1i64;
+                let mut j = i;
+                let mut reset_at: Option<usize> = None;
+                while j < recs.len() {
+                    match &recs[j].ev {
+                        Ev::ShutdownReq { restart } => last_restart = *restart,
+                        Ev::Reset { .. } => {
+                            reset_at = Some(j);
+                            break;
+                        }
+                        _ => {}
+                    }
+                    if recs[j].t != t {
+                        break;
+                    }
+                    j += 1;
+                }
+                let Some(rj) = reset_at else {
+                    info.violate(Violation::new("C09", "no-reset", format!("module {} requested shutdown at {t} ns but was never reset", module_path(prog, m))));
+                    return;
+                };
+                if recs[rj].t != t {
+                    info.violate(Violation::new("C09", "late-reset", format!("module {} requested shutdown at {t} ns, reset ran at {} ns", module_path(prog, m), recs[rj].t)));
+                    return;
+                }
+                let until_t = if last_restart >= 0 { Some(t + last_restart as u64) } else { None };
+                downs[m].push(Down { from_t: t, reset_seq: recs[rj].seq, until_t, start_seq: None });
+                i = rj + 1;
+                continue;
+            }
+            i += 1;
+        }
+        // exactly one reset per requesting event
+        let resets = recs.iter().filter(|r| matches!(r.ev, Ev::Reset { .. })).count();
+        if resets != downs[m].len() {
+            info.violate(Violation::new("C09", "reset-count", format!("module {} was reset {resets} times for {} shutdown requests", module_path(prog, m), downs[m].len())));
+            return;
+        }
+    }
+    // behaviour of every victim inside / at the end of its downtime
+    for m in 0..nmod {
+        let stages = prog.modules[m].stages.clamp(1, 4);
+        let recs: Vec<&Rec> = tr.iter().filter(|r| r.m as usize == m).collect();
+        let dcount = downs[m].len();
+        for di in 0..dcount {
+            let d = downs[m][di].clone();
+            let next_from = downs[m].get(di + 1).map(|x| x.reset_seq);
+            // records after the reset, up to the next reset
+            let after: Vec<&&Rec> = recs.iter().filter(|r| r.seq > d.reset_seq && next_from.map_or(true, |n| r.seq <= n)).collect();
+            let mut started_stages: Vec<u8> = Vec::new();
+            let mut first_start: Option<u32> = None;
+            for r in &after {
+                let user_code = matches!(r.ev, Ev::Recv { .. } | Ev::Beat { .. } | Ev::Task { .. } | Ev::Start { .. } | Ev::Offer { .. });
+                if matches!(r.ev, Ev::End { .. }) {
+                    continue;
+                }
+                let inside = d.until_t.map_or(true, |u| r.t < u);
+                if user_code && inside {
+                    info.violate(Violation::new("C09", "ran-while-down", format!(
+                        "module {} is shut down from {} ns until {:?} but ran {:?} at {} ns", module_path(prog, m), d.from_t, d.until_t, r.ev, r.t)));
+                    return;
+                }
+                if let Ev::Task { inc, .. } = &r.ev {
+                    if *inc as usize <= di {
+                        info.violate(Violation::new("C09", "old-incarnation", format!(
+                            "a task of incarnation {inc} of module {} ran at {} ns, after the module was reset", module_path(prog, m), r.t)));
+                        return;
+                    }
+                }
+                if let Ev::Start { stage, .. } = &r.ev {
+                    if first_start.is_none() {
+                        first_start = Some(r.seq);
+                    }
+                    if Some(r.t) != d.until_t {
+                        info.violate(Violation::new("C09", "restart-time", format!(
+                            "module {} restarted (stage {stage}) at {} ns, requested restart time {:?}", module_path(prog, m), r.t, d.until_t)));
+                        return;
+                    }
+                    started_stages.push(*stage);
+                } else if user_code && first_start.is_none() && !matches!(r.ev, Ev::Beat { .. } if false) {
+                    // user code of the new incarnation before its start-up ran
+                    if let Some(u) = d.until_t {
+                        if r.t >= u {
+                            // at the restart instant an event may be dispatched before the restart event (tie): it is then ignored
+                            // by the inactive module and leaves no record; a record here means user code ran before at_sim_start
+                            info.violate(Violation::new("C09", "ran-before-restart", format!(
+                                "module {} ran {:?} at {} ns before its start-up stages of the restart at {u} ns", module_path(prog, m), r.ev, r.t)));
+                            return;
+                        }
+                    }
+                }
+            }
+            if d.until_t.is_some() {
+                let expect: Vec<u8> = (0..stages).collect();
+                let limit_stopped = res.ok.map_or(false, |o| o.2 > 0);
+                if started_stages != expect && !(limit_stopped && started_stages.is_empty()) {
+                    info.violate(Violation::new("C09", "restart-stages", format!(
+                        "module {} restarted with start-up stages {started_stages:?}, expected each of {expect:?} exactly once (restart at {:?})", module_path(prog, m), d.until_t)));
+                    return;
+                }
+                info.probe("restart_completed");
+            } else if !started_stages.is_empty() {
+                info.violate(Violation::new("C09", "restart-unrequested", format!("module {} restarted although no restart time was given", module_path(prog, m))));
+                return;
+            }
+            downs[m][di].start_seq = first_start;
+        }
+    }
+    // active(m, t): Some(true) strictly up, Some(false) strictly down, None on a boundary instant
+    let status = |m: usize, t: u64| -> Option<bool> {
+        for d in &downs[m] {
+            if t == d.from_t || Some(t) == d.until_t {
+                return None;
+            }
+            if t > d.from_t && d.until_t.map_or(true, |u| t < u) {
+                return Some(false);
+            }
+        }
+        Some(true)
+    };
+    // messages: dropped iff some owner on the way is down when the message is at its gate
+    let graph = build_graph(prog);
+    let mut arrivals: BTreeMap<u32, Vec<(u64, usize)>> = BTreeMap::new();
+    for r in tr {
+        if let Ev::Recv { uid, kind, .. } = &r.ev {
+            if *kind != SELF_KIND {
+                arrivals.entry(*uid).or_default().push((r.t, r.m as usize));
+            }
+        }
+    }
+    let mut inside_hits = 0u64;
+    let limit_stopped = res.ok.map_or(false, |o| o.2 > 0);
+    let end_time = res.ok.map_or(0, |o| o.0);
+    for r in tr {
+        let Ev::Offer { uid, gate, len, delay_ns, busy, .. } = &r.ev else { continue };
+        let from: G = (r.m as usize, *gate as usize);
+        let hops = graph.walk(from);
+        // only paths whose channels are idle by construction are predicted (busy behaviour is C07's)
+        if *busy || hops.iter().any(|h| h.1.as_ref().map_or(false, |c| c.jitter_ns > 0 || c.bitrate > 0)) {
+            // channels that can be busy are C07's subject; here only latency-only hops are predicted
+            continue;
+        }
+        let mut t = r.t + delay_ns;
+        // gates the message stands on, with the time it is there: sending gate, then every gate reached
+        let mut certainly_dropped = false;
+        let mut uncertain = false;
+        let mut check = |m: usize, t: u64, certainly_dropped: &mut bool, uncertain: &mut bool| match status(m, t) {
+            Some(true) => {}
+            Some(false) => *certainly_dropped = true,
+            None => *uncertain = true,
+        };
+        // the sending gate is left behind at the (possibly delayed) send time
+        if *delay_ns > 0 || !hops.is_empty() {
+            if *delay_ns > 0 {
+                check(from.0, t, &mut certainly_dropped, &mut uncertain);
+            }
+        }
+        for (i, (g, ch)) in hops.iter().enumerate() {
+            if let Some(c) = ch {
+                t += busy_ns(*len as usize, c.bitrate) + c.latency_ns;
+            }
+            let _ = i;
+            check(g.0, t, &mut certainly_dropped, &mut uncertain);
+        }
+        if hops.is_empty() {
+            check(from.0, t, &mut certainly_dropped, &mut uncertain);
+        }
+        let dest = hops.last().map_or(from, |h| h.0).0;
+        let arr = arrivals.get(uid).cloned().unwrap_or_default();
+        if arr.len() > 1 {
+            info.violate(Violation::new("C09", "duplicate", format!("message {uid:#x} was delivered {} times", arr.len())));
+            return;
+        }
+        if certainly_dropped {
+            inside_hits += 1;
+            if !arr.is_empty() {
+                info.violate(Violation::new("C09", "delivered-through-downtime", format!(
+                    "message {uid:#x} (offered at {} ns) was delivered at {} ns although a module on its way was shut down when it passed", r.t, arr[0].0)));
+                return;
+            }
+        } else if !uncertain {
+            if arr.is_empty() {
+                if limit_stopped && t >= end_time {
+                    continue;
+                }
+                info.violate(Violation::new("C09", "lost-outside-downtime", format!(
+                    "message {uid:#x} (offered at {} ns, due at module {} at {t} ns) was lost although no module on its way was shut down", r.t, module_path(prog, dest))));
+                return;
+            }
+            if arr[0].1 != dest || arr[0].0.abs_diff(t) > 2 {
+                info.violate(Violation::new("C09", "healthy-traffic-disturbed", format!(
+                    "message {uid:#x} arrived at module {} at {} ns, expected module {} at {t} ns", arr[0].1, arr[0].0, dest)));
+                return;
+            }
+        } else if let Some(a) = arr.first() {
+            if a.1 != dest || a.0.abs_diff(t) > 2 {
+                info.violate(Violation::new("C09", "healthy-traffic-disturbed", format!(
+                    "message {uid:#x} arrived at module {} at {} ns, expected module {} at {t} ns", a.1, a.0, dest)));
+                return;
+            }
+        }
+    }
+    // own timers (beats) of every module: present outside downtime, absent inside
+    for m in 0..nmod {
+        let spec = &prog.modules[m];
+        let mut starts: Vec<(u16, u64)> = vec![(0, 0)];
+        for (k, d) in downs[m].iter().enumerate() {
+            if let (Some(u), Some(_)) = (d.until_t, d.start_seq) {
+                starts.push((k as u16 + 1, u));
+            }
+        }
+        for (inc, s0) in &starts {
+            let next_down = downs[m].get(*inc as usize).map(|d| d.from_t);
+            for (i, b) in spec.beats.iter().enumerate() {
+                let t = s0 + b.at_ns;
+                let seen = tr.iter().filter(|r| r.m as usize == m && matches!(&r.ev, Ev::Beat { i: bi, inc: binc } if *bi as usize == i && binc == inc)).map(|r| r.t).collect::<Vec<_>>();
+                if seen.len() > 1 || seen.iter().any(|x| *x != t) {
+                    info.violate(Violation::new("C09", "timer-wrong", format!(
+                        "module {} incarnation {inc}: scripted timer {i} fired at {seen:?}, due once at {t} ns", module_path(prog, m))));
+                    return;
+                }
+                let must = next_down.map_or(true, |d| t < d);
+                // a chained timer only exists if its predecessor ran
+                if must && seen.is_empty() && !(limit_stopped && t >= end_time) {
+                    // stale beats of this incarnation that arrive after a later restart are recorded under the old inc too
+                    info.violate(Violation::new("C09", "timer-lost", format!(
+                        "module {} incarnation {inc}: scripted timer {i} due at {t} ns never fired although the module was up", module_path(prog, m))));
+                    return;
+                }
+            }
+        }
+    }
+    let any_down = downs.iter().any(|d| !d.is_empty());
+    info.probe_n("shutdown_cycles", downs.iter().map(|d| d.len() as u64).sum());
+    info.probe_n("message_or_timer_inside_downtime", inside_hits);
+    info.events += res.ok.map_or(0, |o| o.1 as u64);
+    info.sim_time_ns += u128::from(res.ok.map_or(0, |o| o.0));
+    info.nontrivial = any_down && inside_hits > 0;
 }
